@@ -47,15 +47,15 @@ func init() {
 		Assumptions: []string{"Get only for i < words(s); ToStr only on in-range word values; from >= 0; end = -1 or >= 0"},
 		Flavours:    releaseAnd386,
 		Required: []string{"w=1", "w=2", "w=4", "w=8", "tostr/partial-last-byte", "tostr/empty", "firstdiff/end=-1", "firstdiff/from>=lim", "firstdiff/end-beyond-shorter", "firstdiff/found", "firstdiff/none",
-			"firstdiff/prefix-pair", "firstdiff/end>=MaxInt/8", "strs/empty-list", "strs/append-to-element", "strs/batch>=4096", "byte>=0x80", "len>=300", "tostr/long-result-retained"},
+			"firstdiff/prefix-pair", "firstdiff/end>=MaxInt/8", "strs/empty-list", "strs/append-to-element", "strs/batch>=4096", "strs/tostrs-partial-byte-element-not-last", "byte>=0x80", "len>=300", "tostr/long-result-retained"},
 		Families: func(c *mon.Config) []mon.Family {
 			return []mon.Family{
 				{Name: "one-two-byte", N: 4 * 257, Run: c08Enum},
-				{Name: "random-strings", N: c.Pick(20000, 4000000), Run: c08Random},
-				{Name: "tostr-lengths", N: 4 * 18 * c.Pick(20, 5000), Run: c08ToStr},
+				{Name: "random-strings", Env: 10, N: c.Pick(20000, 4000000), Run: c08Random},
+				{Name: "tostr-lengths", Env: 4, N: 4 * 18 * c.Pick(20, 5000), Run: c08ToStr},
 				{Name: "firstdiff", N: c.Pick(10000, 2000000), Run: c08FirstDiff},
-				{Name: "strs", N: c.Pick(5000, 1000000), Run: c08Strs},
-				{Name: "long-strings", N: c.Pick(60, 6000), Run: func(w *mon.W, idx int) {
+				{Name: "strs", Env: 6, N: c.Pick(5000, 1000000), Run: c08Strs},
+				{Name: "long-strings", Env: 2, N: c.Pick(60, 6000), Run: func(w *mon.W, idx int) {
 					s := string(gen.ZooBytes(w.Rng, []int{1024, 2000, 5000, 40000}[idx%4]+w.Rng.Intn(100)))
 					for _, n := range c08Widths {
 						if !c08CheckStr(w, n, s) {
@@ -353,6 +353,43 @@ func c08Strs(w *mon.W, idx int) {
 		if back[i] != strs[i] {
 			w.Fail("ToStrs/element", mon.D{"width": n, "i": i, "s": fmt.Sprintf("%q", strs[i]), "got": fmt.Sprintf("%q", back[i])})
 			return
+		}
+	}
+	// ToStrs is element-wise ToStr for ANY word slices, not only FromStrs output: elements with a partial last
+	// byte, empty elements, in the middle of the batch
+	if k <= 64 || idx%400 == 199 {
+		m := 2 + r.Intn(6)
+		if k > 64 {
+			m = 4096 + r.Intn(100)
+		}
+		raw := make([][]byte, m)
+		exp := make([]string, m)
+		partial := false
+		for i := range raw {
+			raw[i] = make([]byte, r.Intn(20))
+			for j := range raw[i] {
+				raw[i][j] = byte(r.Intn(1 << uint(n)))
+			}
+			exp[i] = c08Pack(raw[i], n)
+			if (len(raw[i])*n)%8 != 0 && i < m-1 {
+				partial = true
+			}
+		}
+		w.Op = "ToStrs(raw words)"
+		got := bw.ToStrs(raw)
+		w.Eval(1)
+		if len(got) != m {
+			w.Fail("ToStrs/len", mon.D{"width": n, "elements": m, "got": len(got)})
+			return
+		}
+		for i := range got {
+			if got[i] != exp[i] {
+				w.Fail("ToStrs/not-element-wise-ToStr", mon.D{"width": n, "elements": m, "i": i, "words": raw[i], "previous_words": raw[max(i-1, 0)], "got": fmt.Sprintf("%q", got[i]), "expected": fmt.Sprintf("%q", exp[i])})
+				return
+			}
+		}
+		if partial {
+			w.Bucket("strs/tostrs-partial-byte-element-not-last")
 		}
 	}
 	// hostile caller: every element of the FromStrs result is ours; append a word to each (a trie
